@@ -35,6 +35,10 @@ func NewSolver(kind string, timeoutMs int) *Solver {
 		s.argv = []string{kind, "-in", fmt.Sprintf("-t:%d", timeoutMs)}
 	case "cvc5":
 		s.argv = []string{"cvc5", "--incremental", "--lang=smt2", "--produce-models", fmt.Sprintf("--tlimit-per=%d", timeoutMs)}
+	case "cvc5-int":
+		// bit-vectors solved as integers (keeps the mod-2^k semantics): decides
+		// add/compare chains in milliseconds that stall bit-blasting
+		s.argv = []string{"cvc5", "--incremental", "--lang=smt2", "--produce-models", "--solve-bv-as-int=sum", fmt.Sprintf("--tlimit-per=%d", timeoutMs)}
 	default:
 		panic("unknown solver " + kind)
 	}
@@ -59,7 +63,7 @@ func (s *Solver) start() error {
 	s.out = bufio.NewReaderSize(out, 1<<16)
 	s.declared = map[string]Sort{}
 	s.dead = false
-	if s.Name != "cvc5" {
+	if !strings.HasPrefix(s.Name, "cvc5") {
 		s.send("(set-option :produce-models true)\n")
 	} else {
 		s.send("(set-logic ALL)\n")
@@ -86,12 +90,31 @@ func (s *Solver) send(str string) {
 }
 
 func (s *Solver) readLine() string {
-	line, err := s.out.ReadString('\n')
-	if err != nil {
-		s.dead = true
-		return "(error \"solver died\")"
+	// hard watchdog: a solver that ignores its own time limit is killed
+	type lr struct {
+		line string
+		err  error
 	}
-	return strings.TrimSpace(line)
+	ch := make(chan lr, 1)
+	out := s.out
+	go func() {
+		line, err := out.ReadString('\n')
+		ch <- lr{line, err}
+	}()
+	select {
+	case r := <-ch:
+		if r.err != nil {
+			s.dead = true
+			return "(error \"solver died\")"
+		}
+		return strings.TrimSpace(r.line)
+	case <-time.After(time.Duration(s.TimeoutM)*time.Millisecond + 1500*time.Millisecond):
+		s.dead = true
+		if s.cmd != nil && s.cmd.Process != nil {
+			s.cmd.Process.Kill()
+		}
+		return "timeout (watchdog)"
+	}
 }
 
 // readSexp reads one balanced s-expression (possibly multi-line).
@@ -140,17 +163,16 @@ func (s *Solver) Check(asserts []*Term, wantModel bool) (string, Model) {
 	}
 	vars := Vars(asserts...)
 	var sb strings.Builder
+	// independent queries: (reset) keeps z3 on its one-shot tactic pipeline
+	// (push/pop would switch it to the slower incremental core)
+	if strings.HasPrefix(s.Name, "cvc5") {
+		sb.WriteString("(reset)\n(set-logic ALL)\n")
+	} else {
+		fmt.Fprintf(&sb, "(reset)\n(set-option :produce-models true)\n(set-option :timeout %d)\n", s.TimeoutM)
+	}
 	for _, v := range vars {
-		if old, ok := s.declared[v.Name]; ok {
-			if old != v.S {
-				panic("variable redeclared with another sort: " + v.Name)
-			}
-			continue
-		}
-		s.declared[v.Name] = v.S
 		fmt.Fprintf(&sb, "(declare-const %s %s)\n", v.Name, v.S.SMT())
 	}
-	sb.WriteString("(push 1)\n")
 	for _, a := range asserts {
 		fmt.Fprintf(&sb, "(assert %s)\n", a.SMT())
 	}
@@ -186,7 +208,6 @@ func (s *Solver) Check(asserts []*Term, wantModel bool) (string, Model) {
 		}
 		res = "error"
 	}
-	s.send("(pop 1)\n")
 	if res == "error" {
 		// resynchronise by restarting the process
 		s.Close()
